@@ -559,6 +559,43 @@ pub fn run(prop: &str, seed: u64, n: usize, outdir: &str, _corpus: Option<&str>)
             samples.push(format!("{{\"case\":{}}}", json_str(&out.human)));
         }
     }
+    if prop == "C10" {
+        // pinned: a connector with exactly 65536 right (resp. left) ids -- u16::MAX is then a legal id -- built from
+        // bigram files (matrix.def cannot describe it), and a valid mapping of all of them
+        for side in 0..2u64 {
+            let mut rng = Rng(0xC10_0000 + side);
+            let big = 65535usize;
+            let rows_big: String = (1..=big).map(|i| format!("{}\tF{}\n", i, i % 5)).collect();
+            let rows_small = "1\tg0\n".to_string();
+            let cost = "F1/g0\t7\nF2/g0\t-3\n/g0\t2\n".to_string();
+            let (right, left, cost) = if side == 0 { (rows_big, rows_small, cost) } else { (rows_small.replace("g0", "F1"), rows_big.replace('F', "g"), "F1/g1\t7\nF1/g2\t-3\nF1/\t2\n".to_string()) };
+            let (nr, nl) = if side == 0 { (big + 1, 2) } else { (2, big + 1) };
+            let lex = format!("a,{},{},5,wa\nb,0,0,3,wb\nab,{},{},1,wab\n", nl - 1, nr - 1, (nl - 1) / 2, (nr - 1) / 2);
+            let built = guarded(move || vibrato::SystemDictionaryBuilder::from_readers_with_bigram_info(lex.as_bytes(), right.as_bytes(), left.as_bytes(), cost.as_bytes(), "DEFAULT 0 1 0\n".as_bytes(), "DEFAULT,0,0,9,u\n".as_bytes(), false));
+            if let Outcome::Ok(d) = built {
+                let p = |rng: &mut Rng, n: usize| -> Vec<u16> { let mut v: Vec<u16> = (1..n as u32).map(|x| x as u16).collect(); rng.shuffle(&mut v); v };
+                let (lm, rm) = (p(&mut rng, nl), p(&mut rng, nr));
+                let (l2, r2) = (lm.clone(), rm.clone());
+                let mapped = guarded(move || d.map_connection_ids_from_iter(l2, r2));
+                let code = match &mapped { Outcome::Ok(_) => 0, Outcome::Err => 1, Outcome::Panic => 2 };
+                let mut souts: Vec<(u8, bool)> = vec![];
+                if let Outcome::Ok(d) = mapped {
+                    let t = vibrato::Tokenizer::new(d);
+                    for s in ["ab", "ba", "abab"] {
+                        let r = std::panic::catch_unwind(std::panic::AssertUnwindSafe(|| { let mut w = t.new_worker(); w.reset_sentence(s); w.tokenize(); w.num_tokens() }));
+                        souts.push((if r.is_ok() { 0 } else { 2 }, false));
+                    }
+                }
+                // the permutations themselves are not put into the case (evaluating the quadratic list model on 65535
+                // elements takes minutes): a VALID permutation must be accepted (theorem c06_parse_accepts_iff)
+                let mterm = format!("(C10BigMap {} {} {} {} {})", 0xC10_0000u64 + side, nl, nr, code, clist(&souts, |(o, u)| format!("({}, {})", o, cbool(*u))));
+                *dist.entry(format!("mapping_65536_ids_outcome_{}", code)).or_default() += 1;
+                sh.push_h(format!("pinned:65536-ids-side-{}", side), mterm, format!("raw connector with {} right and {} left ids (bigram.right / bigram.left rows i<TAB>F(i mod 5) resp. g..., lexicon a/b/ab using the largest ids); map_connection_ids_from_iter with the shuffles of 1..n drawn from Rng(0xC100000 + side)", nr, nl));
+            } else {
+                *dist.entry("mapping_65536_ids_not_built".into()).or_default() += 1;
+            }
+        }
+    }
     let shards = sh.write(outdir, 60)?;
     let mut meta = std::fs::File::create(format!("{}/meta.json", outdir))?;
     let d: Vec<String> = dist.iter().map(|(k, v)| format!("{}:{}", json_str(k), v)).collect();
